@@ -112,6 +112,15 @@ def gen_setops(ops, with_trees=False):
                         cases.append(dump([op, a, b]))
                         if op in ('isect', 'diff'):
                             cases.append(dump(['within', [op, a, b], pr])); cases.append(dump(['sat', [op, a, b], pr]))
+        # many alternatives on one side
+        for nn in [n_ for n_ in SIZES if n_ <= 129]:
+            a = E_parse(' || '.join('1.0.%d' % i for i in range(nn))); b = E_parse('>=1.0.5 <1.0.20 || 1.0.%d' % (nn - 1))
+            prn = [V(1, 0, i) for i in (0, 4, 5, 6, 19, 20, 21, nn - 2, nn - 1, nn)]
+            cases += membership_cases([a, b], prn)
+            for (x, y) in ((a, b), (b, a)):
+                for op in ops:
+                    cases.append(dump([op, x, y]))
+                    if op in ('isect', 'diff'): cases += membership_cases([[op, x, y]], prn)
         if any(o in ops for o in ('isect', 'allows_any', 'allows_all')):
             # BOTH operands with three alternatives, in every order (nested, overlapping, disjoint intervals): index arithmetic, early exits and
             # pruning in the Range-level loops are right for one alternative or for sorted ones, and wrong here
@@ -583,6 +592,12 @@ def gen_minv(tier, rng):
         for b in ivW:
             e = E_parse(str(a[1]) + ' || ' + str(b[1])); npairs_w += 1
             cases.append(dump(['minv', e])); cases.append(dump(['sat', e, pw_]))
+    # many alternatives, the lowest one last / first / in the middle
+    for nn in SIZES:
+        alts_ = ['%d.0.0' % (nn + 5 - i) for i in range(nn)]
+        for order in (alts_, alts_[::-1], alts_[nn // 2:] + alts_[:nn // 2]):
+            e = E_parse(' || '.join(order))
+            cases.append(dump(['minv', e])); cases.append(dump(['sat', e, [enc_version(V(5, 0, 0)), enc_version(V(6, 0, 0)), enc_version(V(6, 0, 0, (0,))), enc_version(V(nn + 5, 0, 0)), enc_version(V(4, 9, 9))]]))
     # bounds whose text is as long as MAX_LENGTH allows and longer (Range::parse has no length limit; the successor of an
     # exclusive prerelease bound is one identifier longer than the bound)
     nlong = 0
